@@ -120,6 +120,26 @@ impl ToolRegistry {
         let tools = self.tools.lock().expect("tool registry mutex");
         tools.get(&target).cloned()
     }
+
+    /// Verification probe (compiled only with `--cfg rip_verif`; no behaviour change): every name
+    /// `get` can resolve - the registered names, and the aliases as (alias, target) - sorted.
+    #[cfg(rip_verif)]
+    pub fn verif_names(&self) -> (Vec<String>, Vec<(String, String)>) {
+        let mut tools: Vec<String> = {
+            let tools = self.tools.lock().expect("tool registry mutex");
+            tools.keys().cloned().collect()
+        };
+        tools.sort();
+        let mut aliases: Vec<(String, String)> = {
+            let aliases = self.aliases.lock().expect("tool alias mutex");
+            aliases
+                .iter()
+                .map(|(alias, target)| (alias.clone(), target.clone()))
+                .collect()
+        };
+        aliases.sort();
+        (tools, aliases)
+    }
 }
 
 pub struct ToolRunner {
